@@ -315,7 +315,7 @@ prop("C08", mons=["C08"],
 
 # C09 ------------------------------------------------------------------------------------------------
 def c09_rows(K):
-    return routing(K) + [row("CCa", K), row("CCa", K, nodes=2, prio=True), row("T2", K), row("L2", K - 1, p=0.5), row("S1", K, p=0.5),
+    return routing(K) + [row("CCa", K), row("CCa", K, nodes=2, prio=True), row("CCa", K, order="rev"), row("CCa", K, nodes=2, order="rev", prio=True), row("T2", K), row("L2", K - 1, p=0.5), row("S1", K, p=0.5),
                          row("JSQP", K, burst=1, first=2), row("JSQP", K - 1, burst=2), row("P1", K - 1, c=1, pre="reroute", to=2),
                          row("JSQP", K, burst=1, first=2, pre="resume"), row("JSQP", K, burst=1, pre="restart", tie="random"), row("RT", K, router="jsq", c=[1, 2, 1], first=4, tie="order"),
                          row("RT", K, router="jsq", c=[2, 2, 1], first=4, burst=1)]
@@ -335,7 +335,8 @@ prop("C09", mons=["C09"],
 # C10 ------------------------------------------------------------------------------------------------
 def c10_rows(K):
     return [row("Q1", K, c=1), row("Q1", K - 1, c=2, batch=[0, 1, 2, 3]), row("Q1", K - 1, c="inf", batch=[1, 2]), row("Q1", K, c=2, batch=[0, 2], burst=2), row("P1", K, c=1), row("P1", K - 1, c=2, classes=3),
-            row("T2", K, a2=True), row("T2", K, prio=True), row("L2", K - 1, p=0.5), row("SC", K), row("RN", K), row("RT", K, router="jsq")]
+            row("T2", K, a2=True), row("T2", K, prio=True), row("L2", K - 1, p=0.5), row("SC", K), row("RN", K), row("RT", K, router="jsq"),
+            row("T2", K - 1, shared=True, caps=["inf", "inf"]), row("T2", K, shared=True, caps=["inf", "inf"], burst=2)]
 
 
 def c10_validity():
@@ -433,7 +434,7 @@ prop("C14", mons=["C14"], exc_is_violation=True,
      functions=["Simulation.simulate_until_max_time", "Simulation.simulate_until_max_customers", "create_network", "validify_dictionary", "Simulation.__init__"] + CORE)
 
 # C15 ------------------------------------------------------------------------------------------------
-C15_KINDS = ["mm1", "cycle", "sequential", "stateful", "prob", "schedule", "slotted", "process", "siro", "jsq"]
+C15_KINDS = ["mm1", "cycle", "sequential", "stateful", "prob", "schedule", "slotted", "process", "siro", "jsq", "schedule_offset", "slotted_offset", "classchange", "baulk"]
 prop("C15", mons=[],
      quick=lambda: [crow("custom:reproducibility", 4, ties="forced", kind=k) for k in C15_KINDS]
      + [crow("custom:reproducibility", 3, ties="forced", kind=k, between=True) for k in ("cycle", "sequential", "prob")],
@@ -445,16 +446,17 @@ prop("C15", mons=[],
      assumptions=["the seeded generator is an arbitrary but fixed stream: draw i of the process after seed() made by source S is the symbol S@i", "numpy-backed distributions and the Mersenne Twister itself are not exercised"])
 
 # C16 ------------------------------------------------------------------------------------------------
-C16_BASES = [("Q1", {"c": 1, "burst": 2}), ("Q1", {"c": 2, "burst": 2, "first": 2}), ("T2", {"burst": 2}), ("P1", {"c": 1, "burst": 1}), ("SC", {"burst": 2}),
-             ("RN", {"burst": 2}), ("Q1", {"c": "inf", "burst": 2}), ("P1", {"c": 1, "pre": "resume", "burst": 1}), ("L2", {"burst": 1, "p": 0.5})]
+C16_BASES = [("RT", {"router": "cycle", "burst": 3}, 7), ("RT", {"router": "process", "burst": 2}, 5), ("RT", {"router": "jsq", "burst": 2}, 6), ("SL", {"burst": 2}, 5), ("CCa", {"burst": 2}, 5),
+             ("Q1", {"c": 1, "burst": 2}, 7), ("Q1", {"c": 2, "burst": 2, "first": 2}, 7), ("T2", {"burst": 2}, 7), ("P1", {"c": 1, "burst": 1}, 7), ("SC", {"burst": 2}, 7),
+             ("RN", {"burst": 2}, 7), ("Q1", {"c": "inf", "burst": 2}, 7), ("P1", {"c": 1, "pre": "resume", "burst": 1}, 7), ("L2", {"burst": 1, "p": 0.5}, 7)]
 C16_DEEP = [("Q1", {"c": 1, "burst": 3}), ("Q1", {"c": 2, "burst": 3}), ("T2", {"burst": 3}), ("T2", {"burst": 1, "first": 3, "c1": 3}), ("SC", {"burst": 3}),
-            ("SC", {"burst": 2, "pre": "resume"}), ("RN", {"burst": 3}), ("P1", {"c": 1, "burst": 2}), ("Q1", {"c": 1})]
+            ("SC", {"burst": 2, "pre": "resume"}), ("RN", {"burst": 3}), ("P1", {"c": 1, "burst": 2})]
 prop("C16", mons=[],
-     quick=lambda: [crow("custom:pause_resume", 7, ties="forced", base=b, params=p) for b, p in C16_BASES]
+     quick=lambda: [crow("custom:pause_resume", k, ties="forced", base=b, params=p) for b, p, k in C16_BASES]
      + [crow("custom:pause_resume", 3, ties="forced", base="Q1", params={"c": 1})],
-     thorough=lambda: [crow("custom:pause_resume", 8, ties="forced", base=b, params=p) for b, p in C16_BASES]
-     + [crow("custom:pause_resume", 9, ties="forced", base=b, params=p) for b, p in C16_DEEP[:-1]] + [crow("custom:pause_resume", 4, ties="forced", base="Q1", params={"c": 1})]
-     + [crow("custom:pause_resume", 7, ties="forced", base=b, params=p, splits=2) for b, p in C16_BASES],
+     thorough=lambda: [crow("custom:pause_resume", k + 1, ties="forced", base=b, params=p) for b, p, k in C16_BASES]
+     + [crow("custom:pause_resume", 9, ties="forced", base=b, params=p) for b, p in C16_DEEP] + [crow("custom:pause_resume", 4, ties="forced", base="Q1", params={"c": 1})]
+     + [crow("custom:pause_resume", k, ties="forced", base=b, params=p, splits=2) for b, p, k in C16_BASES],
      vacuity=["c16_pairs", "c16_records_compared", "c16_utilisation_compared"],
      functions=["Simulation.simulate_until_max_time (re-entry)", "Simulation.wrap_up_servers", "Node.wrap_up_servers", "Node.find_server_utilisation"],
      assumptions=["tie-free runs only (the property excludes coinciding events): ties=forced"])
